@@ -508,7 +508,9 @@ class Bus (objects.DBusObject):
                         kwargs['args'] = []
                     kwargs['args'].append((int(k[3:]), value))
 
-        self.router.addMatch(caller.sendMessage, **kwargs)
+        caller.matchRules.add(
+            self.router.addMatch(caller.sendMessage, **kwargs)
+        )
 
     def dbus_GetNameOwner(self, busName):
         if busName.startswith(':'):
